@@ -29,6 +29,15 @@ Lemma delete_guarded :
     IfE "leader != nil" [Call "isSameLeader"; IfE "m.isSameLeader(leader)" [Call "DeleteLeaderKey"; IfE "err != nil" [Ret] []; Ret] []] []; Ret].
 Proof. repeat split; reflexivity. Qed.
 
+(* the transaction wrapper every guarded write goes through (Campaign, LeaderTxn, DeleteLeaderKey, the id window): If and
+   Then hand their arguments to the etcd transaction, Commit commits it exactly once; the model's guarded write is ONE
+   compare-and-write, a re-sent transaction would need its comparisons again *)
+Lemma slow_log_txn_ok :
+  src_SlowLogTxn_If = "{ return &SlowLogTxn{ Txn: t.Txn.If(cs...), cancel: t.cancel, } }" /\
+  src_SlowLogTxn_Then = "{ return &SlowLogTxn{ Txn: t.Txn.Then(ops...), cancel: t.cancel, } }" /\
+  skel_SlowLogTxn_Commit = [Call "Commit"; Assign "resp" ":= t.Txn.Commit()"; Assign "err" ":= t.Txn.Commit()"; Call "cancel"; Ret].
+Proof. repeat split; reflexivity. Qed.
+
 (* Check / IsExpired / Close / Grant: the lstate semantics of the model *)
 Lemma check_src_ok :
   src_Check = "{ return ls != nil && ls.getLease() != nil && !ls.getLease().IsExpired() }" /\
